@@ -101,7 +101,9 @@ func (e *expiryManager) _scheduleExpirationAtOrBefore(exp uint32) {
 
 // runExpiry is called when the timer expires. It calls the expirationFunc and then reschedules the timer if necessary.
 func (e *expiryManager) runExpiry() {
+	verifPoint("expiry.fire")
 	e.mutex.Lock()
 	defer e.mutex.Unlock()
+	verifPoint("expiry.locked")
 	e.expirationFunc()
 }
